@@ -19,7 +19,8 @@ def _hist_worker(args):
         rng = random.Random((seed_ << 20) + hid)
         g = kit.families[hid % len(kit.families)]()
         recs = drive_hg.run_history(f"{kitname}{hid}", rng, length, gamma=g, nn=kit.nn, cls=kit.cls, call=kit.call,
-                                    proj=kit.proj, gen=kit.gen, obs=obs06.observe)
+                                    proj=kit.proj, gen=kit.gen,
+                                    obs=obs06.observe_directed if kitname == "DH" else obs06.observe)
         for r in recs:
             if r.get("obs"):
                 out.append({"rid": r["rid"], "what": f"{kitname} after {r['op']['name']}", "gamma": r["gamma"],
@@ -55,11 +56,27 @@ def run(tier, seed_):
         chunks = [(shapes[i::jobs], i * 100000, seed_) for i in range(jobs)]
         for part in ex.map(_shape_worker, [c for c in chunks if c[0]]):
             recs += part
-        for kname in ("H", "SC"):
+        for kname in ("H", "SC", "DH"):
             ids = list(range(b["histories"] // (1 if kname == "H" else 2)))
             for part in ex.map(_hist_worker, [(kname, ids[i::jobs], seed_, b["length"]) for i in range(jobs) if ids[i::jobs]]):
                 recs += part
     log(f"[C06] {len(recs)} observation records ({t():.0f}s)")
+
+    drecs = [r for r in recs if r["rid"].startswith("DH")]
+    recs = [r for r in recs if not r["rid"].startswith("DH")]
+    dbad = common.validate_records(drecs, "TraceC06D")
+    log(f"[C06] directed: {len(drecs)} records, {len(dbad)} with verdicts ({t():.0f}s)")
+    dviol = {}
+    for rid, cl in dbad.items():
+        own = [c for c in cl if c.startswith("C06:")]
+        if own:
+            dviol.setdefault(tuple(own), rid)
+    dby = {r["rid"]: r for r in drecs}
+    for cl, rid in dviol.items():
+        path = common.write_replay("C06", {"property": "C06", "clauses": list(cl), "record": dby[rid],
+                                           "trace_module": "TraceC06D", "repo_head": common.repo_head()})
+        print(f"VIOLATION property=C06 replay={path}")
+        log(f"  {rid} {dby[rid]['what']} clauses={list(cl)}")
 
     def selftest(records, bad):
         import json
@@ -89,7 +106,7 @@ def run(tier, seed_):
     samples = [{"rid": r["rid"], "what": r["what"], "nodes": r["post"]["nodes"], "edges": r["post"]["edges"],
                 "members": r["post"]["e2n"], "degree_asdict": r["obs"]["deg"], "maximal": r["obs"]["max"]}
                for r in recs[:3] + recs[-3:]]
-    return obscore.report(
+    rc = obscore.report(
         "C06", tier, seed_, t, records=recs, trace_module="TraceC06", mc_stats=mc,
         rule="states = every hypergraph enumerated by TLC (MC_ShapesH) realised under 5 label families, edge-id "
              "relabellings and shuffled insertion orders, plus every state reached by random edit histories of "
@@ -98,5 +115,12 @@ def run(tier, seed_):
         samples=samples, class_of=class_of, selftest=selftest,
         assumptions=["TLC evaluates the set-theoretic definitions of spec/Derived.tla",
                      "observer harness/obs06.py maps API answers back to abstract ids faithfully",
-                     "directed statistics (in/out degree, head/tail size) are covered by the C02 projection "
-                     "cross-checks (dimembers, dimemberships, head, tail), not by this observer"])
+                     "directed statistics are validated by TraceC06D on DiHypergraph histories"],
+        extra={"directed_records": len(drecs), "directed_violation_classes": len(dviol)})
+    if dviol:
+        import json as _json
+
+        ev = _json.load(open(f"{common.EVID}/C06.json"))
+        ev["violations"] += len(dviol)
+        _json.dump(ev, open(f"{common.EVID}/C06.json", "w"), indent=1)
+    return 1 if (rc or dviol) else 0
